@@ -7,9 +7,21 @@ LEVEL = "proof"
 def run(ck):
     ck.explanation = ("C34 clause 1: the repository's Lean package is type-checked (`lake build` on a scratch copy; Lean's kernel re-checks every theorem), with an axiom inventory "
                       "(`#print axioms` of the key theorems ⊆ the two declared trusted axioms + Lean's standard three) and no sorry. Clause 2 (structural part): the spec's constants, "
-                      "orders and tables agree with the Rust source as extracted from MIR")
+                      "orders and tables agree with the Rust source as extracted from MIR, and the private-batch circuit's grouping, first-real reference, dummy masking and nullifier "
+                      "ordering have the term shape of the spec's executable definitions (shared with C06/C08/C09)")
     ck.not_decided = ["clause 2 proper: evaluating the spec's executable definitions against the circuit on explored batches is testing, not static analysis"]
     ck.trusted = ["Lean 4.33 kernel (the package pins 4.30; no dependencies)", "the two axioms in Trusted.lean (recursive verifier soundness)", "rustc MIR + vfdriver for the Rust side of the agreement tables"]
     res = lean.check_build(ck)
     lean.check_agreement(ck)
+    # clause 2, circuit side: the private-batch circuit computes its exit slots, first-real reference and nullifier order the way the
+    # spec's executable definitions do (groupExits: per-slot sum over all equal accounts, a slot zeroed iff an EARLIER input slot has the
+    # same account; referenceFromFirstReal; masked ingress; sorted nullifier region) — the term-shape obligations of the batch view
+    from . import pb
+    ob, v = pb.analyse(ck)
+    n = 0
+    for props, ok, rule, key, what, loc, detail in ob.items:
+        if key.startswith(("pb/group/", "pb/first-real/", "pb/mask/", "pb/nullifier/", "pb/out/nullifiers-sorted", "pb/out/exit-slots", "pb/is-dummy-flag")):
+            ck.require(ok, rule, "spec:" + key, what, loc, detail)
+            n += 1
+    ck.floor("TERM", "spec/circuit-side", n, 12, "circuit-side obligations matching the spec's definitions")
     ck.extra_cov = {"checker_cmd": "lake build (scratch copy of /repo/formal) && lake env lean VfAxioms.lean", "lean": getattr(ck, "lean", None)}
